@@ -50,7 +50,7 @@ ASSUME = [
     "stays inside the tree and is not a package resource, a non-recursive location is not named ...__pycache__",
 ]
 RULE = ("quick: (a) EXHAUSTIVE: every subset of 8 entries {a.py,a.pyc,a.pyo,__pycache__/a.cpython-312.pyc,a.txt,__init__.py,"
-        ".#a.py,sub/b.py} in sd/versions x sourceless x recursive; (b) EXHAUSTIVE: 47 version_locations strings (relative and absolute, directory names containing ':') x 7 version_path_separator values "
+        ".#a.py,sub/b.py} in sd/versions x sourceless x recursive; (b) EXHAUSTIVE: 83 version_locations strings (incl. sibling locations whose names are string prefixes of each other, and nested ones) (relative and absolute, directory names containing ':') x 7 version_path_separator values "
         "on a fixed 3-location tree; (c) seeded random trees (2500 quick / 40000 thorough; 1-3 locations, nested, "
         "overlapping, repeated, symlinked locations and files, __pycache__, duplicate ids, junk content) x all separators x "
         "recursive x sourceless, 40% of them configured through a real alembic.ini file. "
@@ -210,14 +210,22 @@ LOC_STRINGS = ["v1", "v1 v2", "v1,v2", "v1, v2", "v1:v2", "v1;v2", "v1\nv2", "v1
                "v1::v2", "v1: v2 ", "v1:v2:", ":v1", "v1;;v2", "v1\n\nv2", "v1\n v2", "v1 v2 v3", "v1/sub v2", "v1/./sub",
                "v1/sub/..", "v1//sub", "v1/sub/", "./v1", "v1 v1", "lnk v1", "lnk/sub", "nope v1", "v1/a1.py", ",", ":", " ",
                "", "v1,v2,v3", "sd/versions", "v1/sub:v1", "v1 : v2", "v3/__pycache__", "/R/v:1", "/R/v:1 v2", "/R/v1,/R/v:1",
-               "/R/v1:/R/v2", "v1/_squashed", "v1/sub/.staging", "/R/v1/./sub"]
+               "/R/v1:/R/v2", "v1/_squashed", "v1/sub/.staging", "/R/v1/./sub", "v1 v10", "v10,v1", "v1 v1/sub", "v1/sub v1", "/R/v1 v10/sub",
+               "v10/sub v1 v10"]
+
+
+# every ordered pair of locations that are siblings with prefix-related names, or nested in each other
+LOC_STRINGS += ["%s %s" % (a, b) for a, b in itertools.permutations(
+    ["v1", "v10", "v1/sub", "v1/sub_more", "sd/versions", "sd/versions_extra"], 2)]
 
 
 def loc_tree():
-    return [D("sd", [D("versions", [F("s0.py", 30)])]),
+    return [D("sd", [D("versions", [F("s0.py", 30)]), D("versions_extra", [F("t2.py", 14)])]),
             D("v1", [F("a1.py", 1), F("a2.py", 2), F("notes.txt", 20), D("sub", [F("a3.py", 3), D(".staging", [F("q2.py", 8)])]),
+                     D("sub_more", [F("t1.py", 13)]),
                      D("_squashed", [F("q1.py", 7)])]),
             D("v:1", [F("q3.py", 9)]),
+            D("v10", [F("t1.py", 11), D("sub", [F("t2.py", 12)])]),
             D("v2", [F("b1.py", 4), F("__init__.py", 21)]),
             D("v3", [F("c1.py", 5), D("__pycache__", [F("c2.cpython-312.pyc", 6)])]),
             L("lnk", ["v1"])]
@@ -302,6 +310,12 @@ def rand_case(rnd):
         tree.append(F(rnd.choice(["setup.py", "a.py", "b.py"]), rnd.randint(1, 6)))
     if rnd.random() < 0.3:
         tree.append(D("v:1", rand_dir_entries(rnd, 1)))
+    if rnd.random() < 0.35:
+        tree.append(D("v10", rand_dir_entries(rnd, 1)))           # sibling of v1 whose name has "v1" as a string prefix
+    if rnd.random() < 0.25 and lookup(tree, ["sd", "versions"]):
+        lookup(tree, ["sd"])[2].append(D("versions_extra", rand_dir_entries(rnd, 1)))
+    if rnd.random() < 0.2:
+        lookup(tree, ["v1"])[2][:] = [e for e in lookup(tree, ["v1"])[2] if e[1] != "sub_more"] + [D("sub_more", rand_dir_entries(rnd, 0))]
     # symbolic links: to directories at top level / inside directories, to files inside directories
     dirs = real_paths(tree, "d")
     files = real_paths(tree, "f")
@@ -324,7 +338,8 @@ def rand_case(rnd):
     # locations
     cands = [["v1"], ["v2"], ["v3"], ["v1", "sub"], ["v2", "sub"], ["sd", "versions"], ["lnk"], ["lnk2"], ["lnk", "sub"],
              ["nope"], ["v1", "sub", ".."], ["v1", ".", "sub"], ["v1", "pkg"], ["v1", "x__pycache__"], ["v1", "__pycache__"],
-             ["l__pycache__"], ["v1", "_squashed"], ["v1", ".staging"], ["v2", "_x"], ["v:1"], ["v:1", "sub"], ["v1", "rel:2024"]]
+             ["l__pycache__"], ["v1", "_squashed"], ["v1", ".staging"], ["v2", "_x"], ["v:1"], ["v:1", "sub"], ["v1", "rel:2024"], ["v10"], ["v10"], ["v10", "sub"], ["sd", "versions_extra"], ["v1", "sub_more"],
+             ["v1"], ["v1", "sub"]]
     dirs_now = real_paths(tree, "d")
     mode = rnd.random()
     if mode < 0.15:
@@ -388,7 +403,7 @@ CACHE_PATTERNS = ["%s.cpython-312.pyc", "%s.cpython-311.pyc", "%s.cpython-312.op
 OTHER_NAMES = ["sd", "versions", "v1", "v2", "v3", "sub", "sub2", "pkg", "__pycache__", "x__pycache__", "lnk", "lnk2",
                "l__pycache__", "lnk.py", "l2.txt", "zz.py", "s0.py", "a1.py", "a2.py", "a3.py", "b1.py", "c1.py", "notes.txt",
                "c2.cpython-312.pyc", "x.txt", "x.py.bak", "x.cpython-312.pyc", "x.pyo", "setup.py", "_squashed", ".staging", "_x",
-               "v:1", "rel:2024", "q1.py", "q2.py", "q3.py"]
+               "v:1", "rel:2024", "q1.py", "q2.py", "q3.py", "v10", "versions_extra", "t1.py", "t2.py", "sub_more"]
 
 
 def _name_pool():
